@@ -9,10 +9,11 @@ Import ListNotations.
    first need_spec = true, need_cover = false (everything except coverage must hold), then
    need_spec = false, need_cover = true under the finding's FailKey; all other cases have both;
    sup = what triangulation.SuperTriangle returned for the same input, in HALF units (the middle
-   of the bounding box may be a half integer) *)
+   of the bounding box may be a half integer); attr_lens = the length of every vertex attribute of
+   the returned mesh (Position, TexCoord, ...) *)
 Inductive case :=
 | CTri (use_model need_spec need_cover : bool) (pts : list (Z * Z)) (tris : list (nat * nat * nat))
-       (pos : list (Z * Z * Z)) (sup : list (Z * Z)).
+       (pos : list (Z * Z * Z)) (sup : list (Z * Z)) (attr_lens : list nat).
 
 Definition qpts (pts : list (Z * Z)) : list pt := map (fun p => (inject_Z (fst p), inject_Z (snd p))) pts.
 Definition tri_inb (t : tri) (l : list tri) : bool := existsb (tri_eqb t) l.
@@ -36,7 +37,7 @@ Fixpoint sup_okb (m : list pt) (sup : list (Z * Z)) : bool :=
    run of the model meets the hypotheses of bw_delaunay_partial on this input *)
 Definition corr_ok (c : case) : bool :=
   match c with
-  | CTri m _ _ pts tris _ sup =>
+  | CTri m _ _ pts tris _ sup _ =>
       if m then
         match bw (qpts pts) with
         | Some ts => let ts := map canon ts in let tris := map canon tris in
@@ -56,12 +57,13 @@ Fixpoint pos_okb (pts : list (Z * Z)) (pos : list (Z * Z * Z)) : bool :=
   end.
 
 (* the property on the implementation's output: certified 4-conjunct checker, vertex i = input
-   point i at (x,0,y), and "triangulation of the input": every point used, 2n-2-h triangles, and
+   point i at (x,0,y) with exactly one vertex per input point in every attribute, and
+   "triangulation of the input": every point used, 2n-2-h triangles, and
    the triangle areas add up to the area of the convex hull (exact in Q) *)
 Definition prop_ok (c : case) : bool :=
   match c with
-  | CTri _ spec cover pts tris pos _ =>
+  | CTri _ spec cover pts tris pos _ alens =>
       let q := qpts pts in
-      (if spec then pos_okb pts pos && delaunayb q tris else true) &&
+      (if spec then pos_okb pts pos && forallb (Nat.eqb (length pts)) alens && delaunayb q tris else true) &&
       (if cover then completeb q tris && coverb q tris else true)
   end.
